@@ -24,9 +24,9 @@ ASSUMPTIONS = ["well-formed + causally consistent regime (no activity starts bef
                "launch names as documented in get_runtime_launch_events_query", "float tolerance 1e-9 relative for bandwidth sums"]
 FLOAT_KEYS = ["files"]          # fractional-time-unit workload class (hv/shard.py)
 PLAN = {"quick": {"shards": 16, "cases": 640, "timeout": 900}, "thorough": {"shards": 16, "cases": 8000, "timeout": 3400}}
-FLOORS = {"quick": {"distinct_nontrivial": 100, "queue_rows": 6000, "tied_instants": 300, "bw_rows": 1500, "counter_files": 150,
+FLOORS = {"quick": {"distinct_nontrivial": 100, "queue_rows": 6000, "tied_instants": 300, "bw_rows": 1500, "counter_files": 150, "second_or_later_counter_file_request": 150,
                     "counter_events_checked": 3000, "streams_judged": 500},
-          "thorough": {"distinct_nontrivial": 2000, "queue_rows": 120000, "tied_instants": 6000, "bw_rows": 30000, "counter_files": 3000,
+          "thorough": {"distinct_nontrivial": 2000, "queue_rows": 120000, "tied_instants": 6000, "bw_rows": 30000, "counter_files": 3000, "second_or_later_counter_file_request": 3000,
                        "counter_events_checked": 60000, "streams_judged": 10000}}
 LAUNCH = {"cudaLaunchKernel", "cudaLaunchKernelExC", "cuLaunchKernel", "cudaMemcpyAsync", "cudaMemsetAsync",
           "runFunction - job_prep_and_submit_for_execution", "hipLaunchKernel", "hipExtModuleLaunchKernel", "hipMemsetAsync", "hipMemcpyAsync",
@@ -61,7 +61,8 @@ def gen_case(rnd, tier: str, i: Any) -> Dict[str, Any]:
         gen_sim.drop_events(rnd, tr, p_launch=rnd.choice([0, 0, 0.1]), p_kernel=rnd.choice([0, 0, 0.1]))
         files[f"rank{r}.json" + (".gz" if rnd.random() < 0.3 else "")] = tr
     ranks = sorted(rnd.sample(range(n_ranks), rnd.randint(1, n_ranks)))
-    return {"files": files, "ranks": ranks}
+    file_requests, file_seed = rnd.choice([1, 1, 2, 3]), rnd.randrange(10 ** 6)
+    return {"files": files, "ranks": ranks, "file_requests": file_requests, "file_seed": file_seed}
 
 
 def run_case(case: Dict[str, Any], ctx: Any) -> core.CaseResult:
@@ -178,13 +179,24 @@ def run_case(case: Dict[str, Any], ctx: Any) -> core.CaseResult:
                         if got is None or abs(got - want) > 1e-9 * scale:
                             res.bad("bw-step-function", f"rank {r} {k}: after ts {t} the series says {got}, active copies sum to {want}")
                             break
-        # ---------------- the *_with_counters file
-        ok, _ = drv.guard(res, "generate_trace_with_counters", ta.generate_trace_with_counters, None, ranks)
-        if ok:
+        # ---------------- the *_with_counters files: a history of 1-3 requests on the same object (both series, one series,
+        # different suffixes); every file holds the source events plus exactly the requested series
+        from hta.trace_analysis import TimeSeriesTypes
+        hist = core.rng("c14files", case.get("file_seed", 0)).sample(
+            [(None, "_with_counters"), (TimeSeriesTypes.QUEUE_LENGTH, "_ql"), (TimeSeriesTypes.MEMCPY_BANDWIDTH, "_bw"),
+             (TimeSeriesTypes.QUEUE_LENGTH | TimeSeriesTypes.MEMCPY_BANDWIDTH, "_both"), (None, "_with_counters")], k=case.get("file_requests", 1))
+        for n_call, (which, suffix) in enumerate(hist):
+            want_ql = which is None or TimeSeriesTypes.QUEUE_LENGTH in which
+            want_bw = which is None or TimeSeriesTypes.MEMCPY_BANDWIDTH in which
+            ok, _ = drv.guard(res, "generate_trace_with_counters", ta.generate_trace_with_counters, which, ranks, suffix)
+            if not ok:
+                break
+            if n_call >= 1:
+                res.counters["second_or_later_counter_file_request"] += 1
             for r in ranks:
                 src = os.path.join(d, fnames[r])
-                outp = src.replace(".json", "_with_counters.json")
-                has_series = (r in ql) or (r in bw)
+                outp = src.replace(".json", f"{suffix}.json")
+                has_series = (want_ql and r in ql) or (want_bw and r in bw)
                 if not os.path.exists(outp):
                     if has_series:
                         res.bad("counters-file-written", f"rank {r}: {os.path.basename(outp)} was not written")
@@ -194,14 +206,15 @@ def run_case(case: Dict[str, Any], ctx: Any) -> core.CaseResult:
                     head = fh.read(2)
                 with (gzip.open(outp, "rb") if head == b"\x1f\x8b" else open(outp, "rb")) as fh:
                     out = json.loads(fh.read())
+                os.remove(outp)
                 n_src = len(case["files"][fnames[r]]["traceEvents"])
                 extra = out["traceEvents"][n_src:]
                 exp_c = collections.Counter()
-                if r in ql:
+                if want_ql and r in ql:
                     for ts, pid, s, q in zip(ql[r]["ts"].tolist(), ql[r]["pid"].tolist(), (ql[r]["id"] if "id" in ql[r].columns else ql[r]["stream"]).tolist(),
                                              ql[r]["queue_length"].tolist()):
                         exp_c[("Queue Length", ts + ld.min_ts, pid, s, "Queue Length", float(q))] += 1
-                if r in bw:
+                if want_bw and r in bw:
                     for ts, pid, nm, v in zip(bw[r]["ts"].tolist(), bw[r]["pid"].tolist(), bw[r]["name"].tolist(), bw[r]["memory_bw_gbps"].tolist()):
                         exp_c[(nm, ts + ld.min_ts, pid, None, "Memcpy BW", float(v))] += 1
                 got_c = collections.Counter()
@@ -213,7 +226,8 @@ def run_case(case: Dict[str, Any], ctx: Any) -> core.CaseResult:
                     (k, v), = e["args"].items()
                     got_c[(e.get("name"), e.get("ts"), e.get("pid"), e.get("id"), k, float(v))] += 1
                 if got_c != exp_c:
-                    res.bad("counters-file-series", f"rank {r}: counter events differ from the series at unshifted timestamps (min_ts {ld.min_ts}): "
+                    res.bad("counters-file-series", f"rank {r}, request #{n_call + 1} ({'both' if which is None else which}, suffix {suffix!r}): counter events differ from "
+                            f"the requested series at unshifted timestamps (min_ts {ld.min_ts}): {sum(got_c.values())} events in the file, {sum(exp_c.values())} expected; "
                             f"unexpected {list((got_c - exp_c).items())[:3]}; missing {list((exp_c - got_c).items())[:3]}")
         res.nontrivial = nontrivial
         res.trivial_reason = "no instant with both a launch and a start on one stream, no overlapping copies"
